@@ -3,7 +3,6 @@ package encoder
 import (
 	"bytes"
 	"fmt"
-	"strconv"
 	"unsafe"
 
 	"github.com/goccy/go-json/internal/errors"
@@ -258,8 +257,8 @@ func compactNumber(dst, src []byte, cursor int64) ([]byte, int64, error) {
 		break
 	}
 	num := src[start:cursor]
-	if _, err := strconv.ParseFloat(*(*string)(unsafe.Pointer(&num)), 64); err != nil {
-		return nil, 0, err
+	if !isValidNumber(*(*string)(unsafe.Pointer(&num))) {
+		return nil, 0, errors.ErrSyntax(fmt.Sprintf("invalid number literal %q", num), start)
 	}
 	dst = append(dst, num...)
 	return dst, cursor, nil
